@@ -97,8 +97,19 @@ def rule_gate_sets(ctx, cfg='prod-all', group='bbs', only=None):
         qtab = questions.get(body.path, [])
         # the same test (operator / callee) on fewer inputs than tabled is the tabled question asked with a more precise dependence
         # (the dependence of a value on the inputs is an over-approximation whose precision moves with the form of the code)
-        new = sorted({tuple(sorted(s)) for q, s in now if s not in tab and not _is_union(s, tab)
-                      and not any(q == q2 and s <= s2 for q2, s2 in qtab)})
+        # positions select which element of a list a test looks at; they are not what is tested (`proofs.get(idx)` with idx counted along an index
+        # list instead of a local counter): a set that is tabled once its position-typed members (usize, [usize]) are taken out is the tabled test
+        def selector(name):
+            k = body.param_index(name)
+            return k is not None and body.local_ty(k).replace('&mut ', '').lstrip('&').strip() in ('usize', '[usize]', 'std::vec::Vec<usize>')
+
+        def known(q, s):
+            return s in tab or _is_union(s, tab) or any(q == q2 and s <= s2 for q2, s2 in qtab)
+
+        def known_modulo_positions(q, s):
+            r = frozenset(x for x in s if not selector(x))
+            return bool(r) and r != s and known(q, r)
+        new = sorted({tuple(sorted(s)) for q, s in now if not known(q, s) and not known_modulo_positions(q, s)})
         new = [list(x) for x in new]
         now = {s for q, s in now}
         n += 1
